@@ -194,9 +194,19 @@ impl<'a, N: Normalizer> XmlSerializer<'a, N> {
                 // namespace are always written with it, whatever else is
                 // bound to that namespace), unless the element carries the
                 // redundant but legal declaration of it itself
+                let own = self.xot.namespaces(node).get(*prefix_id) == Some(namespace_id);
+                if *namespace_id == self.xot.xml_namespace() && own && *prefix_id != self.xot.xml_prefix()
+                {
+                    // nothing but xml may be bound to the XML namespace; a
+                    // declaration that says otherwise cannot be written, and
+                    // dropping it silently would misreport the element
+                    return Err(Error::InvalidOperation(format!(
+                        "Cannot serialize a declaration that binds the prefix {:?} to the XML namespace",
+                        self.xot.prefix_str(*prefix_id)
+                    )));
+                }
                 if *namespace_id == self.xot.xml_namespace()
-                    && !(*prefix_id == self.xot.xml_prefix()
-                        && self.xot.namespaces(node).get(*prefix_id) == Some(namespace_id))
+                    && !(*prefix_id == self.xot.xml_prefix() && own)
                 {
                     return Ok(OutputToken {
                         space: false,
